@@ -3,7 +3,7 @@
 name=$1; shift
 cd /verif
 git -C /repo diff --quiet || { echo "/repo dirty"; exit 2; }
-git -C /repo apply --3way /verif/seeded/$name/patch.diff 2>/tmp/apply.err || git -C /repo apply /verif/seeded/$name/patch.diff || { echo "PATCH DOES NOT APPLY"; cat /tmp/apply.err; git -C /repo checkout -- .; exit 2; }
+git -C /repo apply --3way /verif/seeded/$name/patch.diff 2>/tmp/apply.err || git -C /repo apply /verif/seeded/$name/patch.diff || { echo "PATCH DOES NOT APPLY"; cat /tmp/apply.err; git -C /repo reset -q --hard HEAD; exit 2; }
 for c in "$@"; do
   ./run $c ${TIER:-quick} > /tmp/seedcheck-$name-$c.log 2>&1; rc=$?
   echo "seed=$name check=$c exit=$rc violations=$(grep -c '^VIOLATION' /tmp/seedcheck-$name-$c.log)"
